@@ -25,7 +25,12 @@ Oracle : every turn: `generate` returns (no exception; no hang confirmed at 3x t
 Not asserted (DESIGN 4/C17 S): the fixed internal-error replies are well-formed messages (their frequency is reported per mode
          as label/counter `internal-error:<mode>`); a `$var` in a generated *bot intent* is resolved by design (turns in which
          a non-message position returned `secret_var` are exempt from the S3CR3T test); what a hostile answer does to the
-         dialog (which intent, which message) is unspecified; an empty reply is a well-formed message (counted).
+         dialog (which intent, which message) is unspecified; an empty reply is a well-formed message (counted, also for
+         the benign closing turn: `empty-reply|<mode>|benign-turn` = conversations that a hostile answer left without voice).
+Found on the unchanged tree (see `known`, replays/known/C17/): C17-F7a..e multi-step generation (un-guarded second parse of the
+         generated flow, IndexError on a flow without an immediate step, `Too many events.`, KeyError for `do <unknown>`, hang
+         of slide() on a jump cycle); C17-F7f/g Colang 2.x string evaluation applied to the text of a generated `bot say`
+         (`$name` -> `var_name`, `{...}` interpolated); C17-F7h generated value of a type the state serializer rejects.
 """
 import os
 import re
@@ -37,7 +42,7 @@ from hypothesis import strategies as st
 
 from vf import core, fakes, pipeline
 from vf.core import Violation, ok
-from vf.fakes import MODELS, PREDEF, SELF_CHECK_PROMPTS, mk_llm, mk_user
+from vf.fakes import PREDEF, mk_llm, mk_user
 
 import nemoguardrails  # noqa: F401  (multi-second import: at module import time, never under the case watchdog)
 
@@ -57,7 +62,10 @@ RULE = (
     "mutation of the well-formed answer (mut: delete/insert/replace/duplicate/truncate/re-indent/unquote operations drawn as data); "
     "a context message plants secret_var. An enumerated core crosses every mode x call position x corpus class in the first turn. "
     "Non-trivial = at least one placement was consumed by an LLM call that really happened (measured from the call log); distinct by "
-    "the set of (mode, task at the position, call index, corpus class) reached. counters `reach|mode|task|k|class` give the histogram."
+    "the set of (mode, task at the position, call index, corpus class) reached. counters `reach|mode|task|k|kind:class` are the "
+    "histogram of consumed placements over the cases that held (cases that end in a violation or in a listed known finding are "
+    "counted by the runner under known_finding_instances_seen / violating_cases_seen instead), `literal|mode|task|class` the "
+    "payloads found literally in the reply, `internal-error|mode` and `empty-reply|mode|...` the frequencies of the fixed replies."
 )
 ASSUMPTIONS = [
     "the LLM is vf.fakes.ScriptedLLM (LangChain LLM subclass); embeddings are the registered fake provider; prompts are the shipped templates for openai/gpt-3.5-turbo-instruct",
@@ -66,7 +74,9 @@ ASSUMPTIONS = [
     "message-text positions: generate_bot_message, general / passthrough completions, the message line of a single-call completion, the string of a `bot say \"...\"` generated by v2 flow continuation, a v2 generated value that the flow utters; bot/user intents and generated flow bodies are not message text",
     "payloads at message positions contain no double quotes, newlines or backslashes (quote stripping, first-line rules and the documented backslash-n conversion would otherwise blur 'literally'); those characters are covered by the raw corpus without the literal-text oracle",
     "`Too many events.` (v1 safety limit of 100 events per turn) escaping `generate` counts as raising: the statement says never raises",
-    "a violation seen on a cached LLMRails instance must reproduce on a fresh one, otherwise it is a harness error",
+    "a violation seen on a cached LLMRails instance must reproduce on a fresh one, otherwise it is a harness error; dynamic flows that a case adds to the cached instance (v1 start_flow, v2 AddFlowsAction) are removed before the next case",
+    "pure passthrough mode (`passthrough: true` without dialog rails) runs without the planted context variable: the raw message list is handed to the LLM call, which rejects the `context` role before any LLM output exists",
+    "hang = generate not back after CASE_TIMEOUT (40 s; the slowest 50k-character case takes < 2 s) and again not after 3x on a fresh instance; multi-step cases whose corpus text spells a `goto`/`continue` cycle (text signature of the listed hang C17-F7e) use 6 s / 18 s so that the listed finding costs seconds per instance",
 ]
 
 # ------------------------------------------------------------------------------------------------
@@ -144,7 +154,6 @@ def make_cfg(mode, self_rails=False, exc=False):
 
 
 def routes_for(cfg):
-    mode = cfg["mode"]
     if not cfg["dialog"]:
         return ("llm",)
     if cfg["v"] == 2:
@@ -721,10 +730,6 @@ def run_conversation(case, fresh=False):
 
 def budget(tier):
     return 700 if tier == "quick" else 14000
-
-
-def _turn(t, route, body="some words"):
-    return {"user": f"{mk_user(t)} how is the weather", "route": route, "body": body, "in": [], "out": []}
 
 
 USER_TEXT = {"predef": "hello there", "llm": "how is the weather", "pl": "tell me a joke", "lp": "tell me a story", "ll": "tell me two facts",
